@@ -50,6 +50,7 @@ func zzParse(b []byte, at int64, depth int) zzRef {
 		if n > 2 || depth >= 2 {
 			vrt.Stop("container larger than the bound")
 		}
+		n = vrt.SplitU(n) // positions behind a length stay concrete
 		r.sym, r.kind, r.u = sym, kind, n
 		p := at + hdr
 		cnt := n
@@ -82,6 +83,7 @@ func zzParse(b []byte, at int64, depth int) zzRef {
 		if n > 3 && fixedLen < 0 {
 			vrt.Stop("payload longer than the bound")
 		}
+		n = vrt.SplitU(n)
 		if hasType {
 			tv, ok := zzBE(b, p, 1)
 			if !ok {
@@ -127,6 +129,7 @@ func zzParse(b []byte, at int64, depth int) zzRef {
 		if n > 3 {
 			vrt.Stop("payload longer than the bound")
 		}
+		n = vrt.Split(n)
 		if at+1+n > int64(len(b)) {
 			return bad
 		}
@@ -229,7 +232,9 @@ func zzCompare(buf []byte, v *decode.Value, r zzRef, at int64) {
 	}
 	tu, _ := tf.V.(*scalar.Uint)
 	vrt.Assert(tu != nil && tu.Sym == r.sym, "msgpack: type symbol is the wire type of the specification")
-	vrt.Assert(v.Range.Start == at*8 && v.Range.Len == r.size*8, "msgpack: the value spans exactly its encoding")
+	if !v.IsRoot { // (the root also spans the gap field behind the value)
+		vrt.Assert(v.Range.Start == at*8 && v.Range.Len == r.size*8, "msgpack: the value spans exactly its encoding")
+	}
 	val := zzField(v, "value")
 	switch r.kind {
 	case "uint":
@@ -302,10 +307,10 @@ func zzSum(es []zzRef) int64 {
 // VerifMsgpack: for every input of up to N bytes the decoder either reports a
 // truncated/invalid encoding or produces the tree the specification defines:
 // wire type, value, payload byte range, container shape; trailing bytes are a gap.
-func VerifMsgpack() { verifMsgpack(7) }
+func VerifMsgpack() { verifMsgpack(5) }
 
 // VerifMsgpackLong: thorough tier.
-func VerifMsgpackLong() { verifMsgpack(10) }
+func VerifMsgpackLong() { verifMsgpack(8) }
 
 func verifMsgpack(N int) {
 	L := vrt.IntRange("len", 0, N)
@@ -327,3 +332,15 @@ func verifMsgpack(N int) {
 		vrt.Assert(g != nil && g.Range.Start == ref.size*8 && g.Range.Len == (int64(L)-ref.size)*8, "msgpack: trailing bytes are reported as a gap")
 	}
 }
+
+// zzNoCrash: any input of up to n bytes, forced or not: tree or error, no panic.
+func zzNoCrash(n int) {
+	L := vrt.IntRange("len", 0, n)
+	buf := vrt.Bytes("b", n)[:L]
+	force := vrt.Choice("force", 2) == 1
+	root, _, err := decode.Decode(nil, bitio.NewBitReader(buf, -1), decode.FormatFn(decodeMsgPack), decode.Options{IsRoot: true, FillGaps: true, Force: force})
+	vrt.Assert(root != nil || err != nil, "decode returns a tree or an error")
+}
+
+func VerifNoCrash()     { zzNoCrash(4) }
+func VerifNoCrashLong() { zzNoCrash(6) }
